@@ -468,6 +468,13 @@ impl Sim {
                 "name": cfg.name,
                 "alt": cfg.alt,
                 "limit": cfg.config.max_concurrent_connections,
+                // what the application configured (documented defaults where it left a field unset):
+                // the manager must run with exactly these
+                "cfg_interval_ms": cfg.config.connectivity_check_interval_ms.unwrap_or(5_000),
+                "cfg_step_ms": cfg.config.connection_backoff_ms.unwrap_or(10_000),
+                "cfg_max_backoff_ms": cfg.config.max_connection_backoff_ms.unwrap_or(60_000),
+                "cfg_connect_timeout_ms": cfg.config.connect_timeout_ms.unwrap_or(10_000),
+                "cfg_cap": cfg.config.max_concurrent_outstanding_connecting_connections.unwrap_or(100),
                 "shutdown_idle_ms": cfg.config.shutdown_idle_timeout_ms.unwrap_or(60_000),
                 "idle_ms": cfg
                     .config
